@@ -11,6 +11,7 @@
 use crate::ty;
 use gluon::query::CompilationBase;
 use gluon::vm::api::{Hole, OpaqueValue};
+use gluon::vm::thread::ThreadInternal;
 use gluon::{RootedThread, ThreadExt};
 use gvh::mg;
 use serde_json::json;
@@ -23,6 +24,9 @@ const RENEW: u32 = 1200;
 /// prefix of a reply line (everything else on the child's stdout is program output)
 pub const REPLY_MARK: &str = "\u{1}C02REPLY ";
 const WATCHDOG_MS: u64 = 4000;
+/// heap limit of every VM (bytes) and bound of its value stack (slots)
+const MEMORY_LIMIT: usize = 64 << 20;
+const STACK_LIMIT: u32 = 1 << 20;
 
 pub const SETTING_NAMES: [&str; 5] = ["implicit_prelude", "optimize", "emit_debug_info", "run_io", "full_metadata"];
 
@@ -37,6 +41,7 @@ thread_local! {
 fn install_panic_hook() {
     std::panic::set_hook(Box::new(|info| {
         let loc = info.location().map(|l| format!("{}:{}", l.file(), l.line())).unwrap_or_default();
+        eprintln!("C02PANIC at {}: {}", loc, info.to_string().lines().next().unwrap_or(""));
         PANIC_AT.with(|p| *p.borrow_mut() = Some(loc));
     }));
 }
@@ -52,6 +57,10 @@ fn new_vm(bits: u32) -> RootedThread {
         db.set_full_metadata(bits & 16 != 0);
     }
     mg::run::register_eff(&vm);
+    // a runaway program (a mutant whose recursion lost its base case) must end in the permitted
+    // failures OutOfMemory / StackOverflow instead of exhausting the machine
+    vm.set_memory_limit(MEMORY_LIMIT);
+    vm.context().set_max_stack_size(STACK_LIMIT);
     vm
 }
 
@@ -207,6 +216,14 @@ fn first_lines(s: &str) -> String {
 }
 
 pub fn child_main() {
+    // The collector marks nested data recursively: a runaway program that builds a list millions
+    // of cells deep (within the memory limit) needs a native stack to match, otherwise the
+    // process dies of a native stack overflow before the VM can report OutOfMemory.
+    let t = std::thread::Builder::new().stack_size(3 << 30).spawn(child_loop).expect("spawn evaluation thread");
+    let _ = t.join();
+}
+
+fn child_loop() {
     install_panic_hook();
     let current: Arc<Mutex<Option<(RootedThread, std::time::Instant)>>> = Arc::new(Mutex::new(None));
     {
@@ -260,13 +277,15 @@ pub fn child_main() {
 // ---------------------------------------------------------------- parent side
 pub struct Child {
     child: Option<(std::process::Child, std::process::ChildStdin, std::sync::mpsc::Receiver<String>)>,
+    /// the last lines the child wrote to stderr (panic messages, allocation failures, …)
+    stderr_tail: Arc<Mutex<Vec<String>>>,
     pub crashes: u64,
     pub requests: u64,
 }
 
 impl Child {
     pub fn new() -> Child {
-        Child { child: None, crashes: 0, requests: 0 }
+        Child { child: None, stderr_tail: Arc::new(Mutex::new(Vec::new())), crashes: 0, requests: 0 }
     }
     fn spawn(&mut self) {
         let exe = std::env::current_exe().expect("current_exe");
@@ -274,11 +293,28 @@ impl Child {
             .arg("child")
             .stdin(std::process::Stdio::piped())
             .stdout(std::process::Stdio::piped())
-            .stderr(std::process::Stdio::null())
+            .stderr(std::process::Stdio::piped())
             .spawn()
             .expect("spawn child");
         let stdin = c.stdin.take().unwrap();
         let stdout = c.stdout.take().unwrap();
+        let stderr = c.stderr.take().unwrap();
+        self.stderr_tail.lock().unwrap().clear();
+        let tail = self.stderr_tail.clone();
+        std::thread::spawn(move || {
+            for l in std::io::BufReader::new(stderr).lines() {
+                match l {
+                    Ok(l) => {
+                        let mut t = tail.lock().unwrap();
+                        t.push(l.chars().take(300).collect());
+                        if t.len() > 12 {
+                            t.remove(0);
+                        }
+                    }
+                    Err(_) => break,
+                }
+            }
+        });
         let (tx, rx) = std::sync::mpsc::channel();
         std::thread::spawn(move || {
             let mut rd = std::io::BufReader::new(stdout);
@@ -325,8 +361,31 @@ impl Child {
             Some(v) => v,
             None => {
                 self.crashes += 1;
+                // did the process die (how?) or did it just stop answering?
+                std::thread::sleep(std::time::Duration::from_millis(200));
+                let exit = self.child.as_mut().and_then(|(c, _, _)| c.try_wait().ok().flatten());
+                let stderr: Vec<String> = self.stderr_tail.lock().unwrap().clone();
+                let text = stderr.join(" | ");
+                let (class, detail) = match exit {
+                    None => ("timeout".to_string(), "no answer within 60 s".to_string()),
+                    Some(st) => {
+                        use std::os::unix::process::ExitStatusExt;
+                        let sig = st.signal();
+                        let panic_at = stderr.iter().rev().find_map(|l| l.strip_prefix("C02PANIC at ").map(|r| r.to_string()));
+                        if text.contains("memory allocation of") || sig == Some(9) {
+                            ("out-of-memory".to_string(), format!("killed for memory ({:?})", st))
+                        } else if text.contains("has overflowed its stack") {
+                            ("native-stack-overflow".to_string(), format!("{:?}", st))
+                        } else if let Some(at) = panic_at {
+                            // a panic that could not unwind (extern "C" primitive): the hook saw it
+                            (format!("panic:{}", at.split(": ").next().unwrap_or("").rsplit('/').take(3).collect::<Vec<_>>().into_iter().rev().collect::<Vec<_>>().join("/")), at)
+                        } else {
+                            (format!("signal-{}", sig.map_or("none".to_string(), |s| s.to_string())), format!("{:?}", st))
+                        }
+                    }
+                };
                 self.kill();
-                json!({"id": req["id"], "bits": req["bits"], "status": "crash", "msg": "the process aborted or stopped answering"})
+                json!({"id": req["id"], "bits": req["bits"], "status": "crash", "crash_class": class, "msg": format!("the process died or stopped answering: {} {}", detail, text.chars().take(400).collect::<String>())})
             }
         }
     }
